@@ -195,16 +195,29 @@ Proof. apply Ev_loop_call'. reflexivity. Qed.
 
 Lemma Ev_loop_sub' n l ch ts r s r' res :
   classify ts = KLBr r ->
-  Ev MIndex r (s, PK "]" :: r') -> Ev (MLoop n (Subscript l s) CNone) r' res ->
+  Ev (MItems []) r (s, PK "]" :: r') -> Ev (MLoop n (Subscript l s) CNone) r' res ->
   Ev (MLoop n l ch) ts res.
 Proof.
   intros Hc [f1 H1] [f2 H2]. ev_start (Nat.max f1 f2). rewrite Hc, H1 by lia.
   change (String.eqb "]" "]") with true. cbv iota. apply H2. lia.
 Qed.
 Lemma Ev_loop_sub n l ch r s r' res :
-  Ev MIndex r (s, PK "]" :: r') -> Ev (MLoop n (Subscript l s) CNone) r' res ->
+  Ev (MItems []) r (s, PK "]" :: r') -> Ev (MLoop n (Subscript l s) CNone) r' res ->
   Ev (MLoop n l ch) (PK "[" :: r) res.
 Proof. apply Ev_loop_sub'. reflexivity. Qed.
+
+(* the items of an index *)
+Lemma Ev_items_last acc ts e r : hd_is "]" ts = false -> hd_is "," r = false ->
+  Ev MIndex ts (e, r) -> Ev (MItems acc) ts (match acc with [] => e | _ :: _ => ETuple (rev (e :: acc)) end, r).
+Proof. intros H1 H2 [f1 E1]. ev_start f1. rewrite H1, E1 by lia. rewrite H2. destruct acc; reflexivity. Qed.
+Lemma Ev_items_more acc ts e r res : hd_is "]" ts = false ->
+  Ev MIndex ts (e, PK "," :: r) -> Ev (MItems (e :: acc)) r res -> Ev (MItems acc) ts res.
+Proof.
+  intros H1 [f1 E1] [f2 E2]. ev_start (Nat.max f1 f2). rewrite H1, E1 by lia. cbn [hd_is is_key tl].
+  change (String.eqb "," ",") with true. cbv iota. apply E2. lia.
+Qed.
+Lemma Ev_items_trailing x acc r : Ev (MItems (x :: acc)) (PK "]" :: r) (ETuple (rev (x :: acc)), PK "]" :: r).
+Proof. ev_start 0. reflexivity. Qed.
 
 (* the index of a subscription *)
 Lemma Ev_index_plain ts e r : hd_is ":" ts = false -> hd_is ":" r = false ->
@@ -1476,18 +1489,24 @@ Definition oQ (o : option expr) : Prop :=
 Definition gen_stmt (e : expr) : Prop :=
   (forall rest, Ev (MElems ")" [] false) (pbody e ++ PK ")" :: rest) (e, rest)) /\
   (forall rest, Ev (MArgs [] []) (pbody e ++ PK ")" :: rest) (args_carrier [e] [], rest)).
-Definition P_stmt (e : expr) : Prop :=
+Definition Q_stmt (e : expr) : Prop :=
   match e with
   | Slice a b c => oQ a /\ oQ b /\ oQ c
   | GeneratorExp _ _ => gen_core e = true -> gen_stmt e
   | _ => core e = true -> match e with Starred v => A_stmt v | _ => A_stmt e end
   end.
+(* for a tuple also the statements of its items: an index tuple that contains slices is not an expression of the core itself *)
+Definition P_stmt (e : expr) : Prop :=
+  Q_stmt e /\ match e with ETuple items => Forall Q_stmt items | _ => True end.
 
-Lemma P_use e : P_stmt e -> core e && negb (is_starred e) = true -> core e = true /\ is_starred e = false /\ A_stmt e.
+Lemma Q_use e : Q_stmt e -> core e && negb (is_starred e) = true -> core e = true /\ is_starred e = false /\ A_stmt e.
 Proof.
   intros H Hc. apply andb_prop in Hc as [Hc Hs]. apply negb_true_iff in Hs. split; [exact Hc|]. split; [exact Hs|].
   destruct e; try discriminate; exact (H Hc).
 Qed.
+
+Lemma P_use e : P_stmt e -> core e && negb (is_starred e) = true -> core e = true /\ is_starred e = false /\ A_stmt e.
+Proof. intros [H _]. apply Q_use. exact H. Qed.
 
 Lemma Forall_P_ops vs : Forall P_stmt vs -> forallb (fun x => core x && negb (is_starred x)) vs = true ->
   Forall (fun w => core w = true /\ is_starred w = false /\ A_stmt w) vs.
@@ -1498,7 +1517,7 @@ Qed.
 Lemma Forall_P_elems l : Forall P_stmt l -> forallb core l = true -> Forall elemP l.
 Proof.
   intros HF Hc. rewrite forallb_forall in Hc. rewrite Forall_forall in HF |- *. intros w Hw.
-  pose proof (Hc w Hw) as Hcw. pose proof (HF w Hw) as Hp. split; [exact Hcw|].
+  pose proof (Hc w Hw) as Hcw. pose proof (proj1 (HF w Hw)) as Hp. split; [exact Hcw|].
   destruct w; try discriminate; try exact (Hp Hcw). cbn [core] in Hcw. split; [exact (ec_core _ Hcw)|]. split; [exact (ec_nostar _ Hcw)|exact (Hp Hcw)].
 Qed.
 
@@ -1525,10 +1544,90 @@ Proof.
   apply andb_prop in Hc as [Hc Ha]. apply andb_prop in Hc as [Hc Hifs]. apply andb_prop in Hc as [Hc Hni].
   apply andb_prop in Hc as [Hc Hci]. apply andb_prop in Hc as [Hct Htt].
   apply negb_true_iff in Ha. subst a. split; [reflexivity|]. split.
-  - split; [exact Hct|]. split; [exact Htt|]. destruct t; try discriminate; exact (Pt Hct).
+  - split; [exact Hct|]. split; [exact Htt|]. destruct Pt as [Pt _]. destruct t; try discriminate; exact (Pt Hct).
   - split.
     + apply P_use; [exact Pi|]. rewrite Hci, Hni. reflexivity.
     + apply Forall_P_ops; assumption.
+Qed.
+
+(* ---------- the index of a subscription ---------- *)
+Definition oP (o : option expr) : Prop := match o with Some y => opP y | None => True end.
+Definition idxP (x : expr) : Prop := match x with Slice a b c => oP a /\ oP b /\ oP c | _ => opP x end.
+
+Lemma index_item_ev x k rest : idxP x -> (k = "]" \/ k = ",") ->
+  Ev MIndex (pp slot_Subscript_slice x ++ PK k :: rest) (x, PK k :: rest).
+Proof.
+  intros Hx Hk.
+  assert (Hcl : closer k = true) by (destruct Hk as [-> | ->]; reflexivity).
+  assert (Hst : slice_stop (PK k :: rest) = true) by (destruct Hk as [-> | ->]; reflexivity).
+  assert (Hnc : hd_is ":" (PK k :: rest) = false) by (destruct Hk as [-> | ->]; reflexivity).
+  assert (Hplain : forall y, opP y -> Ev MIndex (pp slot_Subscript_slice y ++ PK k :: rest) (y, PK k :: rest)).
+  { intros y [C2 [N2 A2]].
+    apply Ev_index_plain; [apply pp_head_not_key; [exact C2|reflexivity]|exact Hnc|].
+    apply closed_child; [exact C2|exact N2|exact A2|exact Hcl|right; apply Nat.le_refl]. }
+  destruct x; try (apply Hplain; exact Hx).
+  (* a slice: lower : upper : step *)
+  destruct Hx as [Qa [Qb Qc]].
+  assert (Hpart : forall s y k0 r, s <= TOP -> opP y -> closer k0 = true ->
+            Ev (MExpr s) (pp s y ++ PK k0 :: r) (y, PK k0 :: r) /\ slice_stop (pp s y ++ PK k0 :: r) = false /\
+            hd_is ":" (pp s y ++ PK k0 :: r) = false).
+  { intros s y k0 r Hs0 [Cx [Nx Ax]] Hk0. split; [|split].
+    - apply closed_child; [exact Cx|exact Nx|exact Ax|exact Hk0|right; apply Nat.le_refl].
+    - unfold slice_stop. rewrite !(pp_head_not_key _ y s _ Cx) by reflexivity. reflexivity.
+    - apply pp_head_not_key; [exact Cx|reflexivity]. }
+  rewrite pp_unfold. cbn [node_prec pbody].
+  assert (E0 : Nat.ltb slot_Subscript_slice node_prec_Slice = false) by (vm_compute; reflexivity). rewrite E0. cbn [pparen].
+  rewrite <- !app_assoc. cbn [app]. rewrite <- !app_assoc. cbn [app].
+  assert (Hstep : forall lo up, Ev (MSliceStep lo up)
+             ((match step with Some y => pp slot_Slice_step y | None => [] end) ++ PK k :: rest)
+             (Slice lo up step, PK k :: rest)).
+  { intros lo up. destruct step as [y|].
+    - destruct (Hpart slot_Slice_step y k rest (ltac:(vm_compute; lia)) Qc Hcl) as [E1 [E2 _]].
+      apply Ev_step_some; assumption.
+    - cbn [app]. apply Ev_step_none. exact Hst. }
+  assert (Hup : forall lo, Ev (MSliceUp lo)
+             ((match upper with Some y => pp slot_Slice_upper y | None => [] end) ++ PK ":" ::
+              (match step with Some y => pp slot_Slice_step y | None => [] end) ++ PK k :: rest)
+             (Slice lo upper step, PK k :: rest)).
+  { intros lo. destruct upper as [y|].
+    - destruct (Hpart slot_Slice_upper y ":" ((match step with Some y => pp slot_Slice_step y | None => [] end) ++ PK k :: rest)
+                  (ltac:(vm_compute; lia)) Qb eq_refl) as [E1 [E2 _]].
+      eapply Ev_up_some; [exact E2|exact E1|apply Hstep].
+    - cbn [app]. apply Ev_up_none. apply Hstep. }
+  destruct lower as [y|].
+  - destruct (Hpart slot_Subscript_slice y ":"
+                ((match upper with Some y => pp slot_Slice_upper y | None => [] end) ++ PK ":" ::
+                 (match step with Some y => pp slot_Slice_step y | None => [] end) ++ PK k :: rest)
+                (ltac:(vm_compute; lia)) Qa eq_refl) as [E1 [_ E3]].
+    change slot_Slice_lower with slot_Subscript_slice.
+    eapply Ev_index_lower; [exact E3|exact E1|apply Hup].
+  - cbn [app]. apply Ev_index_colon. apply Hup.
+Qed.
+
+Lemma idx_head_not_close x rest : idxP x -> hd_is "]" (pp slot_Subscript_slice x ++ rest) = false.
+Proof.
+  intros Hx. destruct x; try (destruct Hx as [C _]; apply pp_head_not_key; [exact C|reflexivity]).
+  destruct Hx as [Qa _]. rewrite pp_unfold. cbn [node_prec pbody].
+  assert (E0 : Nat.ltb slot_Subscript_slice node_prec_Slice = false) by (vm_compute; reflexivity). rewrite E0. cbn [pparen].
+  destruct lower as [y|]; [|reflexivity]. destruct Qa as [C _]. rewrite <- !app_assoc. apply pp_head_not_key; [exact C|reflexivity].
+Qed.
+
+(* items separated by commas, closed by the bracket: x1, x2, ..., xn] *)
+Lemma index_items_chain rest : forall items acc, items <> [] -> (acc <> [] \/ 2 <= length items) -> Forall idxP items ->
+  Ev (MItems acc) (join [PK ","] (map (pp slot_Subscript_slice) items) ++ PK "]" :: rest)
+     (ETuple (rev acc ++ items), PK "]" :: rest).
+Proof.
+  induction items as [|x t IH]; intros acc Hne Hsz HF; [contradiction|].
+  inversion HF as [|? ? Hx Ht]; subst. destruct t as [|y t'].
+  - cbn [map join]. destruct Hsz as [Hacc|Hl]; [|cbn [length] in Hl; lia].
+    pose proof (Ev_items_last acc _ x (PK "]" :: rest) (idx_head_not_close x _ Hx) eq_refl (index_item_ev x "]" rest Hx (or_introl eq_refl))) as H.
+    destruct acc as [|a0 acc']; [contradiction|]. cbn [rev] in H |- *. exact H.
+  - cbn [map]. rewrite (join_cons2 [PK ","]). rewrite <- !app_assoc. cbn [app].
+    eapply Ev_items_more; [apply idx_head_not_close; exact Hx|apply (index_item_ev x ","); [exact Hx|right; reflexivity]|].
+    assert (Hne1 : y :: t' <> []) by discriminate.
+    assert (Hne2 : x :: acc <> [] \/ 2 <= length (y :: t')) by (left; discriminate).
+    pose proof (IH (x :: acc) Hne1 Hne2 Ht) as IH'.
+    cbn [rev] in IH'. rewrite <- app_assoc in IH'. exact IH'.
 Qed.
 
 Lemma core_call f args kws : core (Call f args kws) = true ->
@@ -1544,8 +1643,9 @@ Qed.
 
 Theorem A_all : forall e, P_stmt e.
 Proof.
-  unfold P_stmt.
-  induction e using expr_ind'; cbn beta iota;
+  induction e using expr_ind';
+    (split; [|first [exact I|unfold Pl in *; eapply Forall_impl; [|eassumption]; intros ? [HQ _]; exact HQ]]);
+    unfold Q_stmt; cbn beta iota;
     try (intros Hc; cbn [core] in Hc; try discriminate; cbn beta iota; try (intros n rest res Hp Hs Hloop; cbn [pbody])).
   - (* Name *) cbn [safe] in Hs. cbn [app]. eapply Ev_expr_atom; [apply prefix_name; exact Hs|apply Ev_atom_name|exact Hloop].
   - (* Constant *) cbn [app]. eapply Ev_expr_atom; [reflexivity|apply Ev_atom_lit|exact Hloop].
@@ -1685,49 +1785,35 @@ Proof.
         lia.
       * apply (safe_of_rest_ok e1 C1 slot_Attribute_value); [exact Hle|apply ctx_trailer; reflexivity].
     + eapply Ev_loop_sub; [|exact Hloop].
-      assert (Hplain : forall x, core x && negb (is_starred x) = true -> P_stmt x ->
-                Ev MIndex (pp slot_Subscript_slice x ++ PK "]" :: rest) (x, PK "]" :: rest)).
-      { intros x Hx Px. destruct (P_use x Px Hx) as [C2 [N2 A2]].
-        apply Ev_index_plain; [apply pp_head_not_key; [exact C2|reflexivity]|reflexivity|].
-        apply closed_child; [exact C2|exact N2|exact A2|reflexivity|right; apply Nat.le_refl]. }
-      destruct e2; try (apply Hplain; assumption).
-      (* a slice: lower : upper : step *)
-      destruct IHe2 as [Qa [Qb Qc]]. apply andb_prop in Hc2 as [Hc2 Hcc]. apply andb_prop in Hc2 as [Hca Hcb].
-      assert (Hpart : forall s x k r, s <= TOP -> oQ (Some x) -> core x && negb (is_starred x) = true -> closer k = true ->
-                Ev (MExpr s) (pp s x ++ PK k :: r) (x, PK k :: r) /\ slice_stop (pp s x ++ PK k :: r) = false /\
-                hd_is ":" (pp s x ++ PK k :: r) = false).
-      { intros s x k r Hs0 Qx Hx Hk. destruct (Qx Hx) as [Cx [Nx Ax]]. split; [|split].
-        - apply closed_child; [exact Cx|exact Nx|exact Ax|exact Hk|right; apply Nat.le_refl].
-        - unfold slice_stop. rewrite !(pp_head_not_key _ x s _ Cx) by reflexivity. reflexivity.
-        - apply pp_head_not_key; [exact Cx|reflexivity]. }
-      rewrite pp_unfold. cbn [node_prec pbody].
-      assert (E0 : Nat.ltb slot_Subscript_slice node_prec_Slice = false) by (vm_compute; reflexivity). rewrite E0. cbn [pparen].
-      rewrite <- !app_assoc. cbn [app]. rewrite <- !app_assoc. cbn [app].
-      (* step *)
-      assert (Hstep : forall lo up, Ev (MSliceStep lo up)
-                 ((match step with Some x => pp slot_Slice_step x | None => [] end) ++ PK "]" :: rest)
-                 (Slice lo up step, PK "]" :: rest)).
-      { intros lo up. destruct step as [x|].
-        - destruct (Hpart slot_Slice_step x "]" rest (ltac:(vm_compute; lia)) Qc Hcc eq_refl) as [E1 [E2 _]].
-          apply Ev_step_some; assumption.
-        - cbn [app]. apply Ev_step_none. reflexivity. }
-      assert (Hup : forall lo, Ev (MSliceUp lo)
-                 ((match upper with Some x => pp slot_Slice_upper x | None => [] end) ++ PK ":" ::
-                  (match step with Some x => pp slot_Slice_step x | None => [] end) ++ PK "]" :: rest)
-                 (Slice lo upper step, PK "]" :: rest)).
-      { intros lo. destruct upper as [x|].
-        - destruct (Hpart slot_Slice_upper x ":" ((match step with Some x => pp slot_Slice_step x | None => [] end) ++ PK "]" :: rest)
-                      (ltac:(vm_compute; lia)) Qb Hcb eq_refl) as [E1 [E2 _]].
-          eapply Ev_up_some; [exact E2|exact E1|apply Hstep].
-        - cbn [app]. apply Ev_up_none. apply Hstep. }
-      destruct lower as [x|].
-      * destruct (Hpart slot_Subscript_slice x ":"
-                    ((match upper with Some x => pp slot_Slice_upper x | None => [] end) ++ PK ":" ::
-                     (match step with Some x => pp slot_Slice_step x | None => [] end) ++ PK "]" :: rest)
-                    (ltac:(vm_compute; lia)) Qa Hca eq_refl) as [E1 [_ E3]].
-        change slot_Slice_lower with slot_Subscript_slice.
-        eapply Ev_index_lower; [exact E3|exact E1|apply Hup].
-      * cbn [app]. apply Ev_index_colon. apply Hup.
+      (* one item: an expression or a slice *)
+      assert (Hone : idxP e2 -> Ev (MItems []) (pp slot_Subscript_slice e2 ++ PK "]" :: rest) (e2, PK "]" :: rest)).
+      { intros Hx. apply (Ev_items_last [] _ e2 (PK "]" :: rest)); [apply idx_head_not_close; exact Hx|reflexivity|].
+        apply index_item_ev; [exact Hx|left; reflexivity]. }
+      assert (Hexpr : forall x, P_stmt x -> core x && negb (is_starred x) = true -> opP x) by (intros x Px Hx; exact (P_use x Px Hx)).
+      assert (Hq : forall o, oQ o -> match o with Some y => core y && negb (is_starred y) | None => true end = true -> oP o).
+      { intros [y|] Qy Hy; [exact (Qy Hy)|exact I]. }
+      assert (Hslice : forall a b c, Q_stmt (Slice a b c) ->
+                (match a with Some y => core y && negb (is_starred y) | None => true end) &&
+                (match b with Some y => core y && negb (is_starred y) | None => true end) &&
+                (match c with Some y => core y && negb (is_starred y) | None => true end) = true -> idxP (Slice a b c)).
+      { intros a b c [Qa [Qb Qc]] Hs3. apply andb_prop in Hs3 as [Hs3 Hcc]. apply andb_prop in Hs3 as [Hca Hcb].
+        split; [apply Hq; assumption|]. split; apply Hq; assumption. }
+      destruct e2; try (apply Hone; apply (Hexpr _ IHe2 Hc2)).
+      * (* an index tuple: with a slice among its items it is printed bare *)
+        unfold index_toks. destruct (existsb is_slice elts) eqn:Es; [|apply Hone; apply (Hexpr _ IHe2 Hc2)].
+        destruct IHe2 as [_ HQ].
+        assert (HF : Forall idxP elts).
+        { rewrite forallb_forall in Hc2. rewrite Forall_forall in HQ |- *. intros x Hin. specialize (HQ x Hin). specialize (Hc2 x Hin).
+          destruct x; try (apply (Q_use _ HQ Hc2)). apply Hslice; assumption. }
+        change slot_Subscript_tuple_item with slot_Subscript_slice.
+        destruct elts as [|x [|y t]]; [discriminate Es| |].
+        -- (* one item: x,] *)
+           inversion HF as [|? ? Hx _]; subst. cbn [map join app]. rewrite <- app_assoc. cbn [app].
+           eapply Ev_items_more; [apply idx_head_not_close; exact Hx|apply index_item_ev; [exact Hx|right; reflexivity]|].
+           apply (Ev_items_trailing x [] rest).
+        -- rewrite app_nil_r.
+           apply (index_items_chain rest (x :: y :: t) []); [discriminate|right; cbn [length]; lia|exact HF].
+      * (* a slice *) apply Hone. destruct IHe2 as [HQ _]. apply Hslice; assumption.
   - (* Slice: nothing of its own, the parts' statements are handed on *)
     assert (G : forall o, Po P_stmt o -> oQ o).
     { intros [x|] Hx; [|exact I]. cbn [Po oQ] in *. intros Hcx. apply P_use; assumption. }
@@ -1772,7 +1858,7 @@ Proof.
     cbn [pbody] in Hold.
     destruct Hm as [[x [gs [-> [-> Hm]]]]|[Ha Hk]]; [|apply Hold; assumption].
     (* f(x for x in y) *)
-    clear Hold. inversion H as [|? ? Hgen _]; subst. cbn beta iota in Hgen.
+    clear Hold. inversion H as [|? ? Hgen _]; subst. destruct Hgen as [Hgen _]. cbn beta iota in Hgen.
     destruct (Hgen Hm) as [_ Harg].
     destruct (P_use e IHe Hcf) as [C [N A]]. cbn [node_prec] in Hp.
     rewrite <- app_assoc. cbn [app]. rewrite <- app_assoc.
@@ -1903,7 +1989,7 @@ Theorem roundtrip_core : forall e, core e = true -> is_starred e = false ->
   exists f0, forall f, f0 <= f -> pc f (MExpr slot_top) (pp slot_top e) = Some (e, []).
 Proof.
   intros e Hc Hns. rewrite <- (app_nil_r (pp slot_top e)).
-  assert (HA : A_stmt e) by (pose proof (A_all e) as H; destruct e; try discriminate; exact (H Hc)).
+  assert (HA : A_stmt e) by (destruct (A_all e) as [H _]; destruct e; try discriminate; exact (H Hc)).
   apply (child_of_A e Hc Hns HA slot_top slot_top [] (e, [])).
   - intros Hle. split; [exact Hle|]. apply (safe_of_rest_ok e Hc slot_top); [exact Hle|vm_compute; reflexivity].
   - apply Ev_loop_stop. reflexivity.
@@ -1916,7 +2002,7 @@ Proof.
   intros e0 Hc.
   assert (Hx : exists x gs, e0 = GeneratorExp x gs) by (destruct e0; try discriminate Hc; eexists _, _; reflexivity).
   destruct Hx as [x [gs ->]].
-  destruct (A_all (GeneratorExp x gs) Hc) as [Hpar _].
+  destruct (A_all (GeneratorExp x gs)) as [HG _]. destruct (HG Hc) as [Hpar _].
   rewrite pp_unfold. change (Nat.ltb slot_top (node_prec (GeneratorExp x gs))) with true. cbn [pparen].
   change (PK "(" :: pbody (GeneratorExp x gs) ++ [PK ")"]) with (PK "(" :: pbody (GeneratorExp x gs) ++ PK ")" :: []).
   eapply Ev_expr_atom; [reflexivity|apply Ev_atom_paren'; apply Hpar|apply Ev_loop_stop; reflexivity].
